@@ -51,13 +51,18 @@ def fixture_meta_text(typ):
     return (common.REPO / "src" / "tests" / "fixtures" / name).read_text()
 
 
+def _pos(x):
+    """positional notation (the meta parser does not read exponents)."""
+    return np.format_float_positional(float(x), trim="-")
+
+
 def write_recording(folder, typ, counts, ns, data, range_max):
     """Mock recording: <folder>/c10_g0_t0.<typ>.bin + .meta; returns the bin path."""
     nc = len(data) // ns if ns else sum(counts)
     D = np.array(data, dtype=np.int64).astype(np.int16).reshape(ns, nc)
     if typ == "nidq":
         fs = 30000.0
-        meta = {"nSavedChans": nc, "niSampRate": 30000, "fileTimeSecs": repr(ns / fs), "typeThis": "nidq",
+        meta = {"nSavedChans": nc, "niSampRate": 30000, "fileTimeSecs": _pos(ns / fs), "typeThis": "nidq",
                 "snsMnMaXaDw": ",".join(str(c) for c in counts), "niMNGain": 200, "niMAGain": 1,
                 "niAiRangeMax": range_max, "niAiRangeMin": -range_max, "fileSizeBytes": ns * nc * 2}
         txt = "".join("%s=%s\n" % kv for kv in meta.items())
@@ -68,7 +73,7 @@ def write_recording(folder, typ, counts, ns, data, range_max):
         out = []
         for l in src.splitlines():
             if l.startswith("fileTimeSecs="):
-                l = "fileTimeSecs=" + repr(ns / fs)
+                l = "fileTimeSecs=" + _pos(ns / fs)
             elif l.startswith("fileSizeBytes="):
                 l = "fileSizeBytes=%d" % (ns * nc * 2)
             out.append(l)
@@ -375,6 +380,8 @@ def exec_sync_read(case):
                 tags["defect"] = "multiword_digital"
             elif len(wcols) == 0:
                 tags["defect"] = "no_digital_word"
+            elif not sel and acols and use_floor:
+                tags["defect"] = "empty_selection_floor"
             else:
                 tags["defect"] = "exception"
             r.bad.append(("read_sync raised %r; the recording has %d sync word(s) and %d analog sync channel(s)"
@@ -714,7 +721,7 @@ def gen_sync_read(ctx):
         thr_eff = float(np.float32(1.2 if thr is None else thr))
         thr_counts = int(np.ceil(thr_eff / (range_max / 32768.0)))
         D = [[rng.randrange(-32768, 32768) if rng.random() < 0.3 else rng.choice(
-            [0, 1, -1, 255, 256, -256, 32767, -32768, 0x5555, 0x0F0F - 65536 if False else 0x0F0F])
+            [0, 1, -1, 255, 256, -256, 32767, -32768, 0x5555, 0x0F0F])
             for _ in range(nc)] for _ in range(ns)]
         if typ == "nidq":
             mn, ma, xa, dw = counts
